@@ -382,3 +382,72 @@ func VH02h_inflight_loss() {
 	verif.Reach("inflight-checked")
 	sock.Close()
 }
+
+// VH02i_idle_loss: an IDLE PUSH connection goes away (any of 2..3 peers, so
+// also the one that attached first). Afterwards the survivors are slow: every
+// connection is handed one message at a time (never a second one before the
+// first write returned), the departed connection is never offered anything,
+// and once the survivors drain every accepted message has been delivered
+// exactly once, in send order per connection.
+func VH02i_idle_loss() {
+	proto := pushes[verif.Choice("proto", 2)]
+	lab := "C02/" + proto + "/idle-loss"
+	sock := vp.New(proto)
+	verif.Assert(sock.SetOption(mangos.OptionWriteQLen, 2) == nil, lab+"/set-wqlen")
+	side := vt.Listen(sock, "a")
+	np := 2 + verif.Choice("peers", 2)
+	var peers []*vt.Pipe
+	for i := 0; i < np; i++ {
+		peers = append(peers, side.Peer("p"+string(rune('0'+i))))
+	}
+	gone := peers[verif.Choice("gone", np)]
+	gone.Drop()
+	verif.Quiesce()
+	for _, p := range peers {
+		if p != gone {
+			p.SendMode = vt.SendBlock
+		}
+	}
+	var bodies [][]byte
+	accepted := 0
+	for i := 0; i < 4; i++ {
+		b := []byte{byte('a' + i), verif.Byte("out")}
+		var serr error
+		g := verif.Go("send", func() { serr = sock.Send(b) })
+		verif.Quiesce()
+		if !g.Done() {
+			break // queue and hand-off slots full: the sender waits, as documented
+		}
+		verif.Assert(serr == nil, lab+"/send-ok")
+		bodies = append(bodies, b)
+		accepted++
+	}
+	verif.Assert(gone.SendCalls == 0, lab+"/detached-connection-offered-traffic")
+	for _, p := range peers {
+		verif.Assert(p.MaxInFlight <= 1, lab+"/connection-handed-a-second-message-before-the-first-write-returned")
+	}
+	for _, p := range peers {
+		if p != gone {
+			p.SendMode = vt.SendOK
+			for k := 0; k < 6; k++ {
+				p.Release()
+			}
+		}
+	}
+	verif.Quiesce()
+	total := 0
+	for _, p := range peers {
+		last := -1
+		for _, r := range p.Sent {
+			w := r.Bytes()
+			idx := int(w[0] - 'a')
+			verif.Assert(len(w) == 2 && idx >= 0 && idx < len(bodies)+1, lab+"/invented-or-changed-message")
+			verif.Assert(idx > last, lab+"/reordered-or-duplicated-on-one-connection")
+			last = idx
+			total++
+		}
+	}
+	verif.Assert(total >= accepted, lab+"/message-lost-although-accepted-after-the-connection-was-detached")
+	verif.Reach("idle-loss-checked")
+	sock.Close()
+}
